@@ -118,9 +118,19 @@ pub fn split_compressed_records(data: &[u8]) -> Vec<Record> {
             break;
         }
 
+        // A truncated size prefix ends the record list
+        if data.len() - position < 4 {
+            break;
+        }
+
         let mut record_size = [0; 4];
         record_size.copy_from_slice(&data[position..position + 4]);
         let record_size = i32::from_be_bytes(record_size).unsigned_abs() as usize;
+
+        // A record extending past the end of the data is truncated and ends the record list
+        if data.len() - position - 4 < record_size {
+            break;
+        }
 
         records.push(Record::from_slice(
             &data[position..position + record_size + 4],
